@@ -845,3 +845,171 @@ pub fn run_rewrite_str(sc: &Scenario) -> Result<Result<Result<String, ErrKind>, 
         Err(p) => Err(panic_msg(p)),
     })
 }
+
+// ---------------------------------------------------------------------------------------------
+// Step-wise execution (E2 thread-sim): one API call per step, so a scheduler can hand the
+// rewriter from thread to thread between any two calls.
+// ---------------------------------------------------------------------------------------------
+
+pub struct StepRun<H: HandlerTypes + 'static> {
+    rw: Option<HtmlRewriter<'static, RecSink, H>>,
+    rec: Shared,
+    sc: Scenario,
+    writes: Vec<(usize, usize)>,
+    next: usize,
+    written: usize,
+    d: DriveOut,
+    finished: bool,
+}
+
+pub type SendRun = StepRun<lol_html::send::SendHandlerTypes>;
+pub type LocalRun = StepRun<lol_html::LocalHandlerTypes>;
+
+fn new_rec(sc: &Scenario) -> Shared {
+    Arc::new(Mutex::new(Rec {
+        light: false,
+        evs: Vec::with_capacity(64),
+        out: Vec::with_capacity(sc.doc.len() + 64),
+        invocations: 0,
+        fail_at: sc.fail_at,
+        sink_calls: 0,
+    }))
+}
+
+fn empty_driveout() -> DriveOut {
+    DriveOut { outcome: Outcome::Ok, in_after: vec![], out_after: vec![], usage_after: vec![], misuse_panics: vec![], misuse_sink_calls: 0 }
+}
+
+pub fn start_send(sc: &Scenario) -> Result<SendRun, String> {
+    install_quiet_panic_hook();
+    let rec = new_rec(sc);
+    let settings = build_settings!(Settings::new_send(), sc, &rec, lol_html::send::SendHandlerTypes);
+    let rw = guarded(|| HtmlRewriter::new(settings, RecSink { rec: rec.clone() }));
+    let mut d = empty_driveout();
+    let rw = match rw {
+        Ok(r) => Some(r),
+        Err(p) => {
+            d.outcome = Outcome::Panic(format!("constructor: {}", panic_msg(p)));
+            None
+        }
+    };
+    let finished = rw.is_none();
+    Ok(StepRun { rw, rec, sc: sc.clone(), writes: sc.writes(), next: 0, written: 0, d, finished })
+}
+
+pub fn start_local(sc: &Scenario) -> Result<LocalRun, String> {
+    install_quiet_panic_hook();
+    let rec = new_rec(sc);
+    let settings = build_settings!(Settings::new(), sc, &rec, lol_html::LocalHandlerTypes);
+    let rw = guarded(|| HtmlRewriter::new(settings, RecSink { rec: rec.clone() }));
+    let mut d = empty_driveout();
+    let rw = match rw {
+        Ok(r) => Some(r),
+        Err(p) => {
+            d.outcome = Outcome::Panic(format!("constructor: {}", panic_msg(p)));
+            None
+        }
+    };
+    let finished = rw.is_none();
+    Ok(StepRun { rw, rec, sc: sc.clone(), writes: sc.writes(), next: 0, written: 0, d, finished })
+}
+
+impl<H: HandlerTypes + 'static> StepRun<H> {
+    pub fn done(&self) -> bool {
+        self.finished
+    }
+
+    /// Perform the next API call (one write(), or the final end()/drop).
+    pub fn step(&mut self) {
+        if self.finished {
+            return;
+        }
+        let rec = self.rec.clone();
+        if self.next < self.writes.len() {
+            let (a, b) = self.writes[self.next];
+            let i = self.next;
+            self.next += 1;
+            lock(&rec).evs.push(Ev::Write(b - a));
+            let rw = self.rw.as_mut().unwrap();
+            let doc = &self.sc.doc;
+            let r = guarded(|| rw.write(&doc[a..b]));
+            match r {
+                Ok(Ok(())) => {
+                    self.written += b - a;
+                    let mut g = lock(&rec);
+                    g.evs.push(Ev::WriteOk);
+                    self.d.in_after.push(self.written);
+                    self.d.out_after.push(g.out.len());
+                }
+                Ok(Err(e)) => {
+                    let k = err_kind(&e);
+                    lock(&rec).evs.push(Ev::WriteErr(k.clone()));
+                    self.d.outcome = Outcome::Err(k, i);
+                    let rw = self.rw.take();
+                    let _ = guarded(move || drop(rw));
+                    self.finished = true;
+                }
+                Err(p) => {
+                    let m = panic_msg(p);
+                    lock(&rec).evs.push(Ev::Panic(m.clone()));
+                    self.d.outcome = Outcome::Panic(m);
+                    std::mem::forget(self.rw.take());
+                    self.finished = true;
+                }
+            }
+            return;
+        }
+        let rw = self.rw.take().unwrap();
+        match self.sc.finish {
+            Finish::Drop => match guarded(move || drop(rw)) {
+                Ok(()) => {
+                    lock(&rec).evs.push(Ev::Dropped);
+                    self.d.outcome = Outcome::Dropped;
+                }
+                Err(p) => {
+                    let m = panic_msg(p);
+                    lock(&rec).evs.push(Ev::Panic(m.clone()));
+                    self.d.outcome = Outcome::Panic(m);
+                }
+            },
+            Finish::End => {
+                lock(&rec).evs.push(Ev::End);
+                match guarded(move || rw.end()) {
+                    Ok(Ok(())) => lock(&rec).evs.push(Ev::EndOk),
+                    Ok(Err(e)) => {
+                        let k = err_kind(&e);
+                        lock(&rec).evs.push(Ev::EndErr(k.clone()));
+                        self.d.outcome = Outcome::Err(k, self.writes.len());
+                    }
+                    Err(p) => {
+                        let m = panic_msg(p);
+                        lock(&rec).evs.push(Ev::Panic(m.clone()));
+                        self.d.outcome = Outcome::Panic(m);
+                    }
+                }
+            }
+        }
+        self.finished = true;
+    }
+
+    pub fn into_history(self) -> History {
+        let mut g = lock(&self.rec);
+        let evs = std::mem::take(&mut g.evs);
+        let out = std::mem::take(&mut g.out);
+        let ticks = evs.len();
+        History {
+            evs,
+            out,
+            in_after_write: self.d.in_after.clone(),
+            out_after_write: self.d.out_after.clone(),
+            usage_after_write: vec![],
+            outcome: self.d.outcome.clone(),
+            invocations: g.invocations,
+            charges: vec![],
+            probes: [0; 32],
+            misuse_panics: vec![],
+            misuse_sink_calls: 0,
+            ticks,
+        }
+    }
+}
